@@ -8,6 +8,7 @@ import (
 	"math/rand"
 	"sort"
 	"strings"
+	"sync"
 
 	openfgav1 "github.com/openfga/api/proto/openfga/v1"
 
@@ -50,6 +51,8 @@ func run(c *vk.Ctx) {
 		{"v1+qcache+breadth1", drive.Cfg{QueryCache: true, Breadth: 1, ReadsCheck: 1}},
 		{"v2+qcache", drive.Cfg{QueryCache: true, V2: true}},
 		{"v1+qcache+pipeline", drive.Cfg{QueryCache: true, LOEngine: "pipeline"}},
+		{"v2+qcache+breadth1", drive.Cfg{QueryCache: true, V2: true, Breadth: 1, ReadsCheck: 1}},
+		{"v1+qcache+optimized", drive.Cfg{QueryCache: true, LOEngine: "optimized"}},
 	} {
 		oc, err := drive.NewObsCache()
 		if err != nil {
@@ -66,7 +69,7 @@ func run(c *vk.Ctx) {
 		defer s.Close()
 		servers = append(servers, cachedSrv{x.n, s, oc, cfg.V2})
 	}
-	sem.RunCases(c, base, "mem", c.Pick(200, 1500), gen.Options{HierarchyEvery: 3, AlgebraEvery: 5}, 3, 8, func(i int, r *rand.Rand, p *sem.Prepared, contextual []*openfgav1.TupleKey) {
+	sem.RunCases(c, base, "mem", c.Pick(200, 1500), gen.Options{HierarchyEvery: 3, AlgebraEvery: 5, MutualEvery: 4}, 3, 8, func(i int, r *rand.Rand, p *sem.Prepared, contextual []*openfgav1.TupleKey) {
 		oneCase(c, i, r, p, contextual, base, servers)
 	})
 	hits := int64(0)
@@ -89,6 +92,9 @@ type histItem struct {
 	rq    sem.Request
 	ctxl  []*openfgav1.TupleKey
 	model bool
+	// higher: sent with HIGHER_CONSISTENCY (such requests do not read the query cache but their
+	// sub-problems' results are written to it, where later default-consistency requests find them)
+	higher bool
 }
 
 func oneCase(c *vk.Ctx, i int, r *rand.Rand, p *sem.Prepared, contextual []*openfgav1.TupleKey, base *drive.Srv, servers []cachedSrv) {
@@ -106,8 +112,35 @@ func oneCase(c *vk.Ctx, i int, r *rand.Rand, p *sem.Prepared, contextual []*open
 	}
 	for ci, rctx := range ctxs {
 		rc := ref.NewCase(p.Ref, p.AllTuples(contextual), rctx, sem.ExtraObjects(nodes, subjects)...)
-		for qi, rq := range sem.SampleRequests(r, rc, nodes, subjects, c.Pick(24, 50)) {
-			it := histItem{api: "check", rq: rq, ctxl: contextual, model: qi%4 == 0}
+		sample := sem.SampleRequests(r, rc, nodes, subjects, c.Pick(24, 50))
+		if p.Case.Features["mutual-recursion"] || p.Case.Features["hierarchy"] {
+			// chains and cycles: a sub-problem met below a cycle cut or deep in a chain by one request is the
+			// top-level question of another; take EVERY node for two subjects that hold something
+			n := 0
+			for _, u := range subjects {
+				ev := rc.Eval(u)
+				holds := false
+				for _, nd := range nodes {
+					if ev.K(nd[0], nd[1]) == ref.T {
+						holds = true
+						break
+					}
+				}
+				if !holds || ref.IsWildcard(u) {
+					continue
+				}
+				for _, nd := range nodes {
+					if !strings.HasSuffix(nd[0], ":zz") {
+						sample = append(sample, sem.Request{Object: nd[0], Relation: nd[1], User: u, Ctx: rctx})
+					}
+				}
+				if n++; n >= 2 {
+					break
+				}
+			}
+		}
+		for qi, rq := range sample {
+			it := histItem{api: "check", rq: rq, ctxl: contextual, model: qi%4 == 0, higher: qi%6 == 1}
 			if qi%5 == 0 && len(contextual) > 0 {
 				it.ctxl = nil // same request without the contextual tuples: must not be answered from the other's entries
 			}
@@ -123,7 +156,18 @@ func oneCase(c *vk.Ctx, i int, r *rand.Rand, p *sem.Prepared, contextual []*open
 				if len(rels) == 0 {
 					continue
 				}
-				items = append(items, histItem{api: "listobjects", rq: sem.Request{Object: t, Relation: rels[r.Intn(len(rels))], User: subjects[r.Intn(len(subjects))], Ctx: rctx}, ctxl: contextual})
+				lrq := sem.Request{Object: t, Relation: rels[r.Intn(len(rels))], User: subjects[r.Intn(len(subjects))], Ctx: rctx}
+				items = append(items, histItem{api: "listobjects", rq: lrq, ctxl: contextual})
+				// the same list request under every other context and without the contextual tuples: the
+				// entries written for one must not answer the other
+				for _, other := range ctxs[1:] {
+					o := lrq
+					o.Ctx = other
+					items = append(items, histItem{api: "listobjects", rq: o, ctxl: contextual})
+				}
+				if len(contextual) > 0 && li%2 == 0 {
+					items = append(items, histItem{api: "listobjects", rq: lrq})
+				}
 			}
 		}
 	}
@@ -149,12 +193,12 @@ func oneCase(c *vk.Ctx, i int, r *rand.Rand, p *sem.Prepared, contextual []*open
 			switch it.api {
 			case "check", "batch":
 				k := rc.Eval(it.rq.User).K(it.rq.Object, it.rq.Relation)
-				req := drive.Req{Store: p.Store, Model: model, Object: it.rq.Object, Relation: it.rq.Relation, User: it.rq.User, Ctx: it.rq.Ctx, Contextual: it.ctxl}
+				req := drive.Req{Store: p.Store, Model: model, Object: it.rq.Object, Relation: it.rq.Relation, User: it.rq.User, Ctx: it.rq.Ctx, Contextual: it.ctxl, HigherConsistency: it.higher}
 				var o drive.Outcome
 				if it.api == "check" {
 					o = cs.s.Check(req)
 				} else {
-					res, err := cs.s.BatchCheck(p.Store, model, []drive.BatchItem{{ID: "a", Object: it.rq.Object, Relation: it.rq.Relation, User: it.rq.User, Ctx: it.rq.Ctx, Contextual: it.ctxl}}, false)
+					res, err := cs.s.BatchCheck(p.Store, model, []drive.BatchItem{{ID: "a", Object: it.rq.Object, Relation: it.rq.Relation, User: it.rq.User, Ctx: it.rq.Ctx, Contextual: it.ctxl}}, it.higher)
 					if err != nil {
 						o = drive.Outcome{Err: err, Code: drive.CodeOf(err)}
 					} else {
@@ -196,6 +240,17 @@ func oneCase(c *vk.Ctx, i int, r *rand.Rand, p *sem.Prepared, contextual []*open
 				got := append([]string{}, lo.Items...)
 				sort.Strings(got)
 				if strings.Join(got, ",") != strings.Join(want, ",") {
+					// the uncached twin of the same ListObjects engine decides whether the cache is involved:
+					// the same wrong answer without a cache is the engine's deviation (C05's subject)
+					if tw := loTwin(cs.name, base); tw != nil {
+						tl := tw.ListObjects(drive.Req{Store: p.Store, Model: model, Object: it.rq.Object, Relation: it.rq.Relation, User: it.rq.User, Ctx: it.rq.Ctx, Contextual: it.ctxl})
+						tg := append([]string{}, tl.Items...)
+						sort.Strings(tg)
+						if tl.Err == nil && strings.Join(tg, ",") == strings.Join(got, ",") {
+							c.Count("listobjects_deviation_also_without_cache(engine, not judged here)", 1)
+							continue
+						}
+					}
 					f := "?"
 					for _, o := range symdiff(got, want) {
 						kk := ref.F
@@ -249,3 +304,33 @@ func symdiff(a, b []string) []string {
 }
 
 func typeOf(o string) string { t, _ := ref.SplitObject(o); return t }
+
+var (
+	loTwinMu sync.Mutex
+	loTwins  = map[string]*drive.Srv{}
+)
+
+// loTwin returns the uncached server (same datastore) with the ListObjects engine of the named cached server.
+func loTwin(name string, base *drive.Srv) *drive.Srv {
+	engine := "classic"
+	switch {
+	case strings.Contains(name, "pipeline"):
+		engine = "pipeline"
+	case strings.Contains(name, "optimized"):
+		engine = "optimized"
+	}
+	if engine == "classic" {
+		return base
+	}
+	loTwinMu.Lock()
+	defer loTwinMu.Unlock()
+	if s, ok := loTwins[engine]; ok {
+		return s
+	}
+	s, err := drive.NewShared(drive.Cfg{LOEngine: engine}, base)
+	if err != nil {
+		return nil
+	}
+	loTwins[engine] = s
+	return s
+}
